@@ -323,6 +323,14 @@ impl Space for YmDiff {
                 out.lockstep("a.add(a.until(b))", &Ok((b.0, b.1)), &back, |m, v| (v.year() as i64, v.month()) == *m, attrs);
             }
         }
+        // week, day and time units are refused for every pair of operands - equal ones included
+        for (uname, l, sm) in [("largest week", Some(Unit::Week), None), ("largest day", Some(Unit::Day), None), ("smallest week", None, Some(Unit::Week)), ("smallest day", None, Some(Unit::Day)), ("largest hour", Some(Unit::Hour), None), ("smallest nanosecond", None, Some(Unit::Nanosecond)), ("largest month, smallest year", Some(Unit::Month), Some(Unit::Year))] {
+            let attrs = || vec![("a", format!("{}-{:02} ref {:?}", a.0, a.1, a.2)), ("b", format!("{}-{:02} ref {:?}", b.0, b.1, b.2)), ("units", uname.to_string()), ("equal_operands", ((a.0, a.1) == (b.0, b.1)).to_string())];
+            let u = call(|| pa.until(&pb, diff(l, sm, None, None)));
+            out.lockstep("PlainYearMonth::until refuses the units", &Err::<(), _>(ErrorKind::Range), &u.map(|_| ()), |_, _| true, attrs);
+            let s = call(|| pa.since(&pb, diff(l, sm, None, None)));
+            out.lockstep("PlainYearMonth::since refuses the units", &Err::<(), _>(ErrorKind::Range), &s.map(|_| ()), |_, _| true, attrs);
+        }
         if out.want_sample() && a.0 != b.0 && a.1 > b.1 {
             out.sample(json!({"a": format!("{}-{:02}", a.0, a.1), "b": format!("{}-{:02}", b.0, b.1), "model_until_year": format!("{:?}", diff_iso_date(Ymd::new(a.0, a.1, 1), Ymd::new(b.0, b.1, 1), DUnit::Year))}));
         }
